@@ -1,3 +1,9 @@
+// crypto/rsa refuses keys under 1024 bits unless told otherwise; the reference signatures of the
+// 512- and 768-bit weak keys are made with it (the setting concerns the standard library only: the
+// minimum the property speaks of, 2048 bits, is the library-under-test's own check).
+
+//go:debug rsa1024min=0
+
 package c14
 
 import (
@@ -6,6 +12,7 @@ import (
 	"crypto/elliptic"
 	"crypto/rand"
 	"crypto/rsa"
+	"crypto/sha1"
 	"crypto/sha256"
 	"crypto/sha512"
 	"encoding/asn1"
@@ -53,16 +60,21 @@ import (
 //	(d) ECDSA hash weaker than its curve: (P-384, SHA-256), (P-521, SHA-256), (P-521, SHA-384), public
 //	    and private keys.
 //	(e) HKDF-PRF key under 32 bytes: HkdfPrfKey, alone and as the PRF of a PrfBasedDeriverKey.
-//	(f) (a) and (b) one level down: a KmsEnvelopeAeadKey whose DEK template asks for an AES key other
-//	    than 16 or 32 bytes, an HMAC key under 16 bytes or an HMAC tag under 10 bytes (every message
-//	    would be encrypted under a freshly generated key of that template).
+//
+// Public keys of (c) and (d) that still give a verifier must refuse a genuine signature made with the
+// weak private key by the standard library (every kind has a reference signer: SHA-1 / SHA-224 ECDSA,
+// RSA down to 512 bits - the test binary runs with GODEBUG rsa1024min=0 for that); one case in sixteen
+// of them is a HEALTHY control whose verifier must accept the reference signature.
 //
 // Second stage for the symmetric kinds (weak2_test.go): the same weak key as an ENABLED NON-PRIMARY
 // member of a keyset with a healthy primary, and an output made under the weak key by the harness
 // references: the keyset is rejected, the factory fails, or the primitive rejects that output.
 //
-// NOT asserted (general oracle only: reject, or self-consistent primitive): sizes the library also
-// refuses but the property does not list: 16-byte AES-CMAC / AES-CMAC-PRF / XAES / (2 x 16) AES-SIV
+// NOT asserted (general oracle only: reject, or self-consistent primitive; a working primitive is
+// counted under observed_not_asserted/unasserted_weak_key_gives_primitive): (a) and (b) one level down -
+// a KmsEnvelopeAeadKey whose DEK template asks for an AES key other than 16 or 32 bytes, an HMAC key
+// under 16 bytes or an HMAC tag under 10 bytes (a template is a recipe for keys, not a key) - and sizes
+// the library also refuses but the property does not list: 16-byte AES-CMAC / AES-CMAC-PRF / XAES / (2 x 16) AES-SIV
 // keys, HMAC tags longer than the digest, AES-CMAC tags under 10, JWT HS256/384/512 keys between 16
 // bytes and the digest size, streaming main keys shorter than the derived key.
 func TestWeakKeys(t *testing.T) {
@@ -70,10 +82,17 @@ func TestWeakKeys(t *testing.T) {
 	rapid.Check(t, func(rt *rapid.T) {
 		detrand.Seed(rapid.Uint64().Draw(rt, "entropy"))
 		w := drawWeak(rt)
-		in := inputs{msg: gen.Bytes(rt, "msg", 40), aad: gen.Bytes(rt, "aad", 20)}
+		in := inputs{msg: gen.Bytes(rt, "msg", 40), aad: gen.Bytes(rt, "aad", 20), pick: uint64(gen.Uniform(rt, "exercised_reader", 1<<16))}
 		ad := gen.BytesOrNil(rt, "keyset_ad", 16)
 		e := &env{f: rt, ksText: func() string { return ksText(w.ks) }}
 		e.what = fmt.Sprintf("weak key %s (asserted=%v) built from %s; msg=%x aad=%x", w.desc, w.asserted, w.from, in.msg, in.aad)
+		if w.control {
+			e.checkHealthyControl(w, in, ad)
+			evid.Case(w.kind+"/healthy-control", true, evid.NewH().B(fingerprint(w.ks)).B(in.msg).Sum(), func() any {
+				return map[string]any{"control": w.desc, "from": w.from, "keyset": ksText(w.ks)}
+			})
+			return
+		}
 		if d := structuralDefect(w.ks); d != "" {
 			rt.Fatalf("harness: weak keyset has a structural defect: %s", d)
 		}
@@ -82,18 +101,12 @@ func TestWeakKeys(t *testing.T) {
 		evid.Add("reader_accepts", int64(len(acc)))
 		outcome := "rejected-at-read"
 		if len(acc) > 0 {
-			var first *tinkpb.KeysetInfo
-			for i, a := range acc {
-				sub := *e
-				sub.what = e.what + " / reader " + a.reader
-				ki := sub.checkHandle(a.h)
-				if i == 0 {
-					first = ki
-				}
-			}
+			chosen, infos := e.checkAccepted(acc, in)
+			first := infos[chosen]
 			sub := *e
-			sub.what = e.what + " / reader " + acc[0].reader
-			h := acc[0].h
+			sub.what = e.what + " / reader " + acc[chosen].reader
+			h := acc[chosen].h
+			evid.Add("exercised_reader/"+acc[chosen].reader, 1)
 			groups := []string{w.group}
 			if x := rapid.SampledFrom(allFactories).Draw(rt, "extra_factory"); x != w.group {
 				groups = append(groups, x)
@@ -107,17 +120,22 @@ func TestWeakKeys(t *testing.T) {
 					sub.failf("factory group %q returned a primitive that is not self-consistent: %s", g, r.detail)
 				}
 				if !w.asserted {
+					if r.outcome != oFactoryErr && r.outcome != oUseErr {
+						evid.Add("observed_not_asserted/unasserted_weak_key_gives_primitive/"+w.kind, 1)
+					}
 					continue
 				}
 				switch r.outcome {
 				case oFactoryErr, oUseErr:
 				case oPublicOnly:
 					// a public-key primitive exists: it must not accept a genuine signature of the weak key
-					if w.refSig != nil {
-						sub.checkWeakVerifier(g, h, w, in)
-					} else {
-						evid.Add("weak_public_primitive_without_reference_signature", 1)
+					if g != w.group {
+						break // the extra (wrong-class) factory group
 					}
+					if w.refSig == nil {
+						sub.failf("harness: a weak public key of kind %s gave a verifier and the harness has no reference signer for it", w.kind)
+					}
+					sub.checkWeakVerifier(g, h, w, in)
 				default:
 					sub.failf("WEAK KEY USABLE: %s: factory group %q returned a primitive that performed its operation (%s %s)", w.desc, g, r.outcome, r.detail)
 				}
@@ -225,6 +243,50 @@ func buildWeakPool() {
 }
 
 // rsaFromPrimes builds the key with exponent e, or nil when e is not invertible.
+// checkHealthyControl: the keyset holds the UNCHANGED public key; every reader accepts it, the verifier
+// is created and accepts the reference signature.  A failure here is a defect of the harness's
+// reference signer or framing (or a C03 matter), reported as a harness error.
+func (e *env) checkHealthyControl(w *weak, in inputs, ad []byte) {
+	acc, _ := e.readAll(w.ks, ad)
+	if len(acc) == 0 {
+		e.failf("harness: every reader rejects the healthy control keyset")
+	}
+	h := acc[int(in.pick%uint64(len(acc)))].h
+	switch w.group {
+	case fSignature:
+		sig := w.refSig(in.msg)
+		if sig == nil {
+			e.failf("harness: no reference signature for the healthy control")
+		}
+		v, err := signature.NewVerifier(h)
+		if err != nil {
+			e.failf("harness: signature.NewVerifier on the healthy control: %v", err)
+		}
+		if err := v.Verify(sig, in.msg); err != nil {
+			e.failf("harness: the healthy key's verifier rejects the reference signature %x of %x: %v", sig, in.msg, err)
+		}
+	case fJWTSig:
+		tok := string(w.refSig(nil))
+		if tok == "" {
+			evid.Add("healthy_control_no_token", 1) // a kid the harness does not put into a header
+			return
+		}
+		iss := "c14"
+		val, err := jwt.NewValidator(&jwt.ValidatorOpts{ExpectedIssuer: &iss, AllowMissingExpiration: true, FixedNow: fixedNow})
+		if err != nil {
+			e.failf("harness: NewValidator: %v", err)
+		}
+		v, err := jwt.NewVerifier(h)
+		if err != nil {
+			e.failf("harness: jwt.NewVerifier on the healthy control: %v", err)
+		}
+		if _, err := v.VerifyAndDecode(tok, val); err != nil {
+			e.failf("harness: the healthy key's JWT verifier rejects the reference token %q: %v", tok, err)
+		}
+	}
+	evid.Add("healthy_control_accepted/"+w.kind, 1)
+}
+
 func rsaFromPrimes(p, q *big.Int, e int) *rsa.PrivateKey {
 	one := big.NewInt(1)
 	p1, q1 := new(big.Int).Sub(p, one), new(big.Int).Sub(q, one)
@@ -300,7 +362,11 @@ type weak struct {
 	from     string // the valid key the proto was derived from
 	group    string // factory group of the key type
 	asserted bool
-	ks       *tinkpb.Keyset
+	// control: one case in sixteen of the public-key kinds leaves the key HEALTHY; the verifier must then
+	// be created and accept the reference signature (it shows that the reference signer and the framing
+	// are right, so that a rejection in the weak cases means something)
+	control bool
+	ks      *tinkpb.Keyset
 	// refSig returns a genuine signature (or, for JWT, compact token) made with the weak private key
 	// by the standard library, in the format the public keyset's verifier expects; nil when none can
 	// be made.
@@ -527,8 +593,14 @@ func drawWeak(rt *rapid.T) *weak {
 		default:
 			rt.Fatalf("harness: curve %s", curve)
 		}
-		setEnumByName(m, pp+"hash_type", hash)
-		w.desc = fmt.Sprintf("Ecdsa %s with %s (public=%v)", curve, hash, usePublic)
+		if usePublic && gen.OneIn(rt, "healthy_control", 16) {
+			w.control, w.asserted = true, false
+			hash = getEnumName(m, pp+"hash_type")
+			w.desc = fmt.Sprintf("HEALTHY CONTROL Ecdsa %s with %s (public)", curve, hash)
+		} else {
+			setEnumByName(m, pp+"hash_type", hash)
+			w.desc = fmt.Sprintf("Ecdsa %s with %s (public=%v)", curve, hash, usePublic)
+		}
 		if usePublic {
 			w.refSig = ecdsaRef(info, hash, getEnumName(m, "params.encoding"))
 		}
@@ -546,7 +618,14 @@ func drawWeak(rt *rapid.T) *weak {
 			pub = m.Mutable(field(m, "public_key")).Message()
 		}
 		var rk *rsa.PrivateKey
-		if w.kind == "rsa-modulus" {
+		if usePublic && gen.OneIn(rt, "healthy_control", 16) {
+			w.control, w.asserted = true, false
+			rk = rsaFromPrimes(new(big.Int).SetBytes(info.Fields["p"].([]byte)), new(big.Int).SetBytes(info.Fields["q"].([]byte)), 65537)
+			if rk == nil || rk.N.Cmp(new(big.Int).SetBytes(info.Fields["n"].([]byte))) != 0 {
+				rt.Fatalf("harness: cannot rebuild the RSA key of %s", info.Desc)
+			}
+			w.desc = fmt.Sprintf("HEALTHY CONTROL %s modulus of %d bits, exponent 65537 (public)", typ, rk.N.BitLen())
+		} else if w.kind == "rsa-modulus" {
 			mat := weakRSA[rapid.IntRange(0, len(weakRSA)-1).Draw(rt, "weak_rsa")]
 			rk = mat.key
 			w.desc = fmt.Sprintf("%s modulus of %d bits (public=%v)", typ, mat.bits, usePublic)
@@ -598,6 +677,10 @@ func rotate(v []int, n int) []int { return append(append([]int{}, v[n%len(v):]..
 
 func hashFor(name string) (crypto.Hash, func([]byte) []byte) {
 	switch name {
+	case "SHA1":
+		return crypto.SHA1, func(b []byte) []byte { s := sha1.Sum(b); return s[:] }
+	case "SHA224":
+		return crypto.SHA224, func(b []byte) []byte { s := sha256.Sum224(b); return s[:] }
 	case "SHA256":
 		return crypto.SHA256, func(b []byte) []byte { s := sha256.Sum256(b); return s[:] }
 	case "SHA384":
@@ -626,7 +709,7 @@ func framed(info *keys.Info, sign func(data []byte) []byte) func(msg []byte) []b
 func ecdsaRef(info *keys.Info, hash, encoding string) func([]byte) []byte {
 	_, sum := hashFor(hash)
 	if sum == nil {
-		return nil // SHA1 / SHA224: Tink has no such ECDSA hash at all
+		return nil
 	}
 	curve := map[string]elliptic.Curve{"NIST_P256": elliptic.P256(), "NIST_P384": elliptic.P384(), "NIST_P521": elliptic.P521()}[info.Fields["curve"].(string)]
 	priv := &ecdsa.PrivateKey{D: new(big.Int).SetBytes(info.Fields["key_value"].([]byte))}
